@@ -73,6 +73,13 @@ pub enum Step {
 	/// through the safe post-construction accessors (child_mut / AsMut), then
 	/// lock (or read) it and release it again
 	MutateThenLock { members: Vec<MemberSpec>, pushed: MemberSpec, via_as_mut: bool, read: bool },
+	/// run `inner` (a Scoped step) from a destructor while this thread is
+	/// unwinding from an earlier panic (`std::thread::panicking()` is true); a
+	/// panic of the closure is caught inside the destructor
+	UnwindingDrop { inner: Box<Step> },
+	/// `lockable::RawLock::poison(&lock)` on stand-alone leaf `leaf` (a safe public
+	/// call): from now on blocking acquisitions of it panic and try_* fails
+	Kill { leaf: usize },
 	/// after an injected raw fault: every lock whose raw operation panicked
 	/// must refuse try_* (Err) and blocking acquisition (panic).  Stand-alone
 	/// leaves are probed directly, by-value leaves through `fallback`.
